@@ -133,6 +133,11 @@ func (c *rconn) build(r reply, req []byte, n int) []byte {
 		if ip, ok := sidIP[r.Sid]; ok {
 			p.UpdateOption(dhcpv4.OptServerIdentifier(ip))
 		}
+		if r.T == "decline" && n%3 > 0 {
+			// "a type the client never asks for" also is: no readable type at all - a message type option of two octets (sent
+			// twice by a confused server: the instances concatenate) that begins like an ACK or a NAK
+			p.Options[uint8(dhcpv4.OptionDHCPMessageType.Code())] = [][]byte{nil, {5, 5}, {6, 0}}[n%3]
+		}
 		if r.Sid == "AA" { // option 54 sent twice (instances concatenate): eight octets that begin with A's address
 			p.UpdateOption(dhcpv4.OptGeneric(dhcpv4.OptionServerIdentifier, append(append([]byte{}, sidIP["A"]...), sidIP["A"]...)))
 		}
